@@ -345,14 +345,15 @@ def _boot_agg(aggname, keys):
         # the units attributable to a group: third-frame units count for state/county/district groups, never for
         # classification groups (C01) -- numerator and denominator range over the SAME units (statement of C02)
         zT_attr = z3.RealVal(0) if classification else zT
-        h.ensures("C02.pred_turnout_is_sum_of_unit_turnout", z3.Implies(rows, pt.t == zT_attr + zR + zN))
+        rp_id = lambda ev: {"target": "verif_replays:bootstrap_aggregate_identity_replay", "args": [], "check": "result['exc'] is None and result['ok']"}  # noqa: E731
+        h.ensures("C02.pred_turnout_is_sum_of_unit_turnout", z3.Implies(rows, pt.t == zT_attr + zR + zN), replay=rp_id)
         num_pred = (mR if classification else mR + mT) + mN
         pm = res.col("pred_margin")
         top = (len(keys) == 1 and "postal_code" in keys) or (len(keys) == 2 and "postal_code" in keys and "district" in keys)
         den = zT_attr + zR + zN
         ratio = z3.If(den == 0, z3.RealVal(0), z3.ToReal(num_pred) / den) if z3.is_int(num_pred) else z3.If(den == 0, z3.RealVal(0), num_pred / den)
         if not top:
-            h.ensures("C02.pred_margin_is_sum_of_unit_margins_over_turnout", z3.Implies(z3.And(rows, z3.Or(den != 0, num_pred == 0)), pm.t == ratio))
+            h.ensures("C02.pred_margin_is_sum_of_unit_margins_over_turnout", z3.Implies(z3.And(rows, z3.Or(den != 0, num_pred == 0)), pm.t == ratio), replay=rp_id)
         # lemma wavg_bounds (lean/FrameSums.lean): |Σ n_i| <= Σ d_i when |n_i| <= d_i pointwise
         for dn, dd, nm in ((dmR, dzR, "R"), (dmT, dzT, "T"), (dmN, dzN, "N")):
             lemma_abs(h, dn, dd, f"lemma.wavg_bounds.{nm}")
